@@ -49,6 +49,48 @@ CLAIMED = {
         "Trusted: Coq kernel; translator section FileConsts; util.is_uuid abstracted to valid/invalid/missing; byte identity after "
         "refused/read-only opens and sessions is exercised (sha256), libhdf5 not modelled; API model Nix/Api.v tied by correspondence.",
         "DESIGN.md section 5 C11", TECH),
+    "C02": (
+        "Coq theorems over the store model: reopening keeps the walk (true by construction of the model: a file is its node list, "
+        "handles hold addresses), the walk is a function of five leaf observations, last write wins, every other attribute and "
+        "link is framed. The content of the claim comes from the correspondence: the real file is walked through fresh objects "
+        "after every operation and after every close+reopen, operations go through randomly chosen old handles, and the digests "
+        "must equal the model's; plus the trace predicate walk-after-reopen = walk-before-close on the implementation alone.",
+        "Trusted: see evidence.trusted_base. Modelled kinds: blocks, groups, arrays (opaque data), tags, multi-tags, features, "
+        "sources, sections, properties; dimension descriptors and data frames are not yet in this walk.",
+        "DESIGN.md section 5 C02", TECH),
+    "C03": (
+        "Coq theorems: duplicate name refused with unchanged state; a created entity gets the next id of the supply with its "
+        "name and type; for any container satisfying the invariant (distinct legal names that are not ids of members, distinct "
+        "ids) c[i], c[i-len], c[name], c[id] designate the same member and out-of-range indices raise IndexError; new members are "
+        "appended last and deletion keeps the order. Tie: histories with probes of all access paths after random steps, names "
+        "incl. id-looking ones; trace predicate on the implementation's probes, id uniqueness and UUID well-formedness.",
+        "Trusted: see evidence.trusted_base; LinkContainer access paths are tied by correspondence only (no theorem yet).",
+        "DESIGN.md section 5 C03", TECH),
+    "C04": (
+        "Coq theorems over the object graph, for ANY store and victim list: del container[x] is delete_all; afterwards no link "
+        "anywhere points at a victim, no victim is reachable from a survivor, all attributes and all other links are kept in "
+        "order, untouched nodes are identical, reachability avoiding victims is kept and nothing new becomes reachable. Tie: "
+        "link-rich histories with deletions/unlinks; trace predicates on the implementation (no dangling link, unlink never "
+        "deletes an entity). Known finding: deleting a block does not remove links other blocks hold to its content.",
+        "Trusted: see evidence.trusted_base. 'what it owns' for blocks is NOT proven (known finding block_content).",
+        "DESIGN.md section 5 C04", TECH),
+    "C05": (
+        "Coq theorems: a link resolves to the address it was given (alias, not copy), creating it changes no attribute, a write "
+        "through one path is read through every other path to that address, a refused append changes nothing. Tie: alias "
+        "histories with equal names in different blocks, attribute writes through link-obtained handles read back through the "
+        "owning container, foreign/wrong-kind appends; trace predicate: no member list/reference/feature leaves its block. The "
+        "dimension-link clauses (ticks from a linked array) are not yet modelled.",
+        "Trusted: see evidence.trusted_base.",
+        "DESIGN.md section 5 C05", TECH),
+    "C12": (
+        "Coq theorems by a compositional calculus on the API monad (readonly / total / atomic): for create_block/section/group/"
+        "data_array/tag/source(block) and create_multi_tag, link-list append/remove, container deletion, attribute and single-link "
+        "setters a refused call leaves the store EQUAL to what it was; for nested create_source/create_section/create_property equal "
+        "up to one empty, unreadable container group; lookups never write. create_feature is refuted with a witness (known "
+        "finding). Tie: histories with a malformed-argument stream and retries; trace predicate walk-digest-before = after for "
+        "every refused call of the implementation.",
+        "Trusted: see evidence.trusted_base. Call sites on dimension descriptors, data writes and data frames are not yet modelled.",
+        "DESIGN.md section 5 C12", TECH),
 }
 
 PENDING_REASON = ("check not built yet in this revision (work in progress: the property is meant to be decided by Coq "
